@@ -316,6 +316,9 @@ def c16_cases(ids: IdGen, tier: str):
         ("i8", [0, 9, 2, 1], "first"),
         ("i16", [-10, -5, -4, 3], "none"),
         ("u8", [250, 251, 252, 253, 254, 255], "swap"),
+        ("u32", [5, 6, 7, 8], "none"),
+        ("i64", [-3, -2, -1, 0, 1], "first"),
+        ("u128", [1, 2, 3, 9], "none"),
     ]
     if tier != "quick":
         base += [
@@ -335,7 +338,7 @@ def c16_cases(ids: IdGen, tier: str):
         tuples = mode_tuples(gap, with_range=True) + \
             [t for t in mode_tuples(gap, with_range=False) if t["iter"] == "table_inline"]
         if tier == "quick":
-            picks = pairwise_subset(tuples, rng, extra=0)[:6]
+            picks = pairwise_subset(tuples, rng, extra=0)[:6 if bi < 4 else 4]
         else:
             picks = pairwise_subset(tuples, rng, extra=6)
         for ti, t in enumerate(picks):
@@ -475,6 +478,10 @@ def cfg_shapes():
         ("holes_large", "i16", [-300, -299, -298, -1, 0, 1, 2, 50, 51, 1000, 1001, 32767], "perm", "dups"),
         ("holes_negative_runs", "i8", [-10, -5, -4, 3, 4], "desc", "first"),
         ("holes_at_type_min", "i8", [-128, -127, 0, 127], "perm", "none"),
+        # sizes above the thresholds an optimisation might introduce (16 / 32 variants, 8 runs)
+        ("holes_40", "i16", [v for v in range(-20, 40) if v % 7 not in (0, 3)][:40], "perm", "pool"),
+        ("gapless_40", "u8", list(range(200, 240)), "perm", "none"),
+        ("holes_wide", "u64", [0, 1, 2, (1 << 32) - 1, 1 << 32, (1 << 32) + 1, (1 << 63) - 2, (1 << 63) - 1], "desc", "swap"),
     ]
     out = []
     for name, r, vs, order, renames in specs:
@@ -578,6 +585,22 @@ def cfg_corpus(tier: str, seed: int):
             cfg.feats["iter"] = dict(cfg.feats["iter"], struct_name=d.name + "Names")
             cfg.feats["names"] = dict(cfg.feats["names"], struct_name=d.name + "Iter")
             add(d, cfg, "swapped_names")
+        # custom names that are also methods of prelude traits, struct names that are also names of core types
+        prelude_names = {"next": "clone", "next_back": "to_owned", "as_str": "to_string", "try_from": "try_into",
+                         "from_str": "from", "iter": "into_iter", "names": "as_ref", "range": "borrow", "MIN": "default",
+                         "MAX": "Output", "into": "eq"}
+        # (not the names the generated functions import locally - Iterator, IntoIterator, DoubleEndedIterator, Some,
+        # None, Ok, Err: a struct of that name cannot be referred to next to such an import; deliberately outside
+        # the workload)
+        core_structs = [("Iter", "Map"), ("IntoIter", "Copied"), ("RangeInclusive", "Range"), ("Option", "MaybeUninit"),
+                        ("Rev", "Formatter")]
+        for k in range(len(core_structs) if tier != "quick" else 3):
+            t = tuples[(k * 3 + di + 1) % len(tuples)]
+            cfg = legalize(cfg_all(t, names=prelude_names if k % 2 == 0 else None), d)
+            a, b = core_structs[(k + di) % len(core_structs)]
+            cfg.feats["iter"] = dict(cfg.feats["iter"], struct_name=a)
+            cfg.feats["names"] = dict(cfg.feats["names"], struct_name=b)
+            add(d, cfg, "prelude_names")
         # split versus joined: the same configuration in one attribute and spread over several
         for k in range(4 if tier == "quick" else 16):
             t = tuples[rng.randrange(len(tuples))]
